@@ -452,7 +452,7 @@ func CheckC19(e *Env) int {
 	for _, c := range cases {
 		progs = append(progs, c.p)
 	}
-	results := RunPool(e, progs, PoolOpts{Name: "c19", BatchSize: 40, AlsoCheck: true})
+	results := RunPool(e, progs, PoolOpts{Name: "c19", BatchSize: 40, AlsoCheck: true, AlsoShow: true})
 	for i, pr := range results {
 		c := cases[i]
 		if pr.PreBad != "" {
@@ -492,6 +492,13 @@ func CheckC19(e *Env) int {
 		}
 		if genRejects && !chkRejects {
 			violate("gen fails for this package but check reports nothing ("+c.class+")", w)
+			continue
+		}
+		if genRejects && chkRejects && pr.ShowRan && len(pr.ShowDiags) == 0 && c.wantGen == "reject" {
+			// show is built on the same analysis as check: an error of these classes (all found
+			// while the sets and injectors are analysed) that check reports and show does not
+			// means show lists as usable what gen refuses
+			violate("gen and check refuse this package but show reports no error for it ("+c.class+")", w)
 			continue
 		}
 		if !genRejects && c.wantChk == "accept" && chkRejects {
